@@ -211,7 +211,12 @@ def equal_area_cases(draw):
     R = S.base_radius(nk)
     hole = draw(S.star_curve(nk, (0.0, 0.0), 0.08 * R, 0.15 * R, (3, 5), (1,), True))
     n = draw(st.integers(2, 3))
-    offs = [(int(0.35 * R), int(0.3 * R)), (-int(0.35 * R), int(0.3 * R)), (0, -int(0.4 * R))][:n]
+    layout = draw(st.sampled_from(["triangle", "column", "row", "diagonal"]))
+    d = int(0.42 * R)
+    offs = {"triangle": [(int(0.35 * R), int(0.3 * R)), (-int(0.35 * R), int(0.3 * R)), (0, -int(0.4 * R))],
+            "column": [(0, d), (0, -d), (0, 0)],      # same x extent: ties in every x-based order
+            "row": [(d, 0), (-d, 0), (0, 0)],
+            "diagonal": [(d, d), (-d, -d), (0, 0)]}[layout][:n]
     tr = lambda c, v: [[(p[0] + v[0], p[1] + v[1]) for p in seg] for seg in c]
     if draw(st.booleans()):
         outer = draw(S.star_curve(nk, (0.0, 0.0), 0.8 * R, R, (4, 8), (1,), False, container=True))
